@@ -407,6 +407,9 @@ func RollCoC(src *rand.PCGSource, isBonus bool, diceNum IntType, mode int) (IntT
 
 	for i := IntType(0); i < diceNum; i++ {
 		n := Roll(src, 10, mode)
+		if mode == -1 && !isBonus {
+			n = 10 // 惩罚骰取下界时，十位骰取读数最小的一面(10读作0)，否则p1的下界会是11而不是1
+		}
 
 		if n == 10 {
 			num10Exists = true
